@@ -71,13 +71,15 @@ def jobs(tier):
         {"name": "nonlinear", "n": 4000 if q else 80000, "eop": "zero"},
         {"name": "helper", "n": 1600 if q else 32000, "eop": "zero"},
         {"name": "overlap", "n": 160 if q else 1600, "eop": "zero"},
+        # real IERS tables: free motion and one impulse over spans that contain a leap second, epoch labelled UTC / TAI
+        {"name": "leap-second", "n": 60 if q else 1200, "eop": "real", "shards": 2 if q else 8},
     ]
 
 
 def requirements(tier):
     k = 1 if tier == "quick" else 10
     req = {
-        "ivp:free": 2000 * k, "history:propagated-before-maneuvers-attached": 100 * k, "request-label:TT": 100 * k, "request-label:GPS": 100 * k,
+        "leap:judged": 80 * k, "leap:label:UTC": 20 * k, "ivp:free": 2000 * k, "history:propagated-before-maneuvers-attached": 100 * k, "request-label:TT": 100 * k, "request-label:GPS": 100 * k,
         "propagator:from_orbit:QSW": 20, "propagator:from_orbit:TNW": 20,
         "stream:evaluated": 2000 * k,
         "stream:maneuver-at-epoch": 100 * k,
@@ -942,5 +944,58 @@ def case_overlap(ctx, job, idx, rng, st):
         ctx.count("overlap:" + label)
 
 
+LEAP_MJD = [53736, 54832, 56109, 57204, 57754]  # UTC days on which a new TAI-UTC enters into force
+
+
+def case_leap(ctx, job, idx, rng, st):
+    """Across a leap second the relative state is still the Hill solution after the time elapsed between the two INSTANTS, and the
+    state returned is dated at the instant asked for."""
+    from beyond.dates import Date, timedelta
+
+    sma = gen_sma(rng)
+    n = math.sqrt(st["mu"] / sma ** 3)
+    rac, _vk = gen_rel_state(rng, n)
+    label = ("UTC", "TAI", "UTC", "TT")[idx % 4]
+    leap = LEAP_MJD[idx % len(LEAP_MJD)]
+    before = round(rng.uniform(30.0, 1500.0), 6)
+    t0 = (Date(leap, scale="UTC").change_scale("TAI") - timedelta(seconds=before))
+    epoch = t0.change_scale(label)
+    if abs((epoch - t0).total_seconds()) > 1.5e-6:
+        ctx.count("leap:not-judged-relabelling-moved-the-instant (C03's subject)")
+        return
+    after = round(rng.uniform(10.0, 2000.0), 6)
+    elapsed = before + after
+    target = (t0 + timedelta(seconds=elapsed)).change_scale(label)  # built on the uniform scale, then labelled
+    backward = idx % 3 == 2
+    ctx.case({"job": "leap-second", "sma": sma, "state_rac": rac, "label": label, "before_s": before, "elapsed_s": elapsed, "backward": backward})
+    ctx.count("leap:label:" + label)
+    for ori in ("QSW", "TNW"):
+        state = to_axes(rac, ori)
+        if backward:
+            orb, _ = make_orbit(st, sma, ori, state, target)
+            ask, dt = epoch, -elapsed
+        else:
+            orb, _ = make_orbit(st, sma, ori, state, epoch)
+            ask, dt = target, elapsed
+        w = dict(sma=sma, n=n, orientation=ori, state0=state, epoch=str(orb.date), asked=str(ask), elapsed_s=dt, label=label,
+                 how="real IERS tables; a leap second lies between the epoch and the date asked for")
+        try:
+            res = orb.propagate(ask)
+        except Exception as exc:
+            ctx.violation("C16/propagate-raises-free", dict(w, exc=repr(exc)), f"propagate raised {exc!r}")
+            continue
+        got = probe.arr(res)
+        ref = hill.trajectory(state, n, [], dt, ori)
+        scale = scale_of(state, n, dt)
+        ctx.count("leap:judged")
+        cmp_state(ctx, "leap:free", got, ref, n, scale, REL_IVP, "C16/free-evolution-across-a-leap-second", w,
+                  "free CW propagation across a leap second differs from the Hill solution over the elapsed time")
+        off = (res.date - ask).total_seconds()
+        ctx.expect(abs(off) <= 1.5e-6, "C16/result-not-dated-at-the-instant-asked-for", dict(w, result_date=str(res.date), offset_s=off),
+                   f"the state returned for {ask} is dated {res.date} ({off:+.6f} s)")
+
+
 def run_case(ctx, job, idx, rng, st):
+    if job["name"] == "leap-second":
+        return case_leap(ctx, job, idx, rng, st)
     {"free": case_free, "mans": case_mans, "nonlinear": case_nonlinear, "helper": case_helper, "overlap": case_overlap}[job["name"]](ctx, job, idx, rng, st)
